@@ -677,3 +677,12 @@ M('C19', 'mean-point-weighted-skip-first', 'src/common/points.rs', "    for (p, 
 M('C08', 'from-rotation-angle-order', 'src/geom3/align3/rotations.rs', "        let (w, p, r) = to_wpr(&m);\n        Self::from_euler(w, p, r)", "        let (w, p, r) = to_wpr(&m);\n        Self::from_euler(r, p, w)", 'RotationMatrices::from_rotation')
 M('C05', 'resampled_n-no-clamp', 'src/func1/series1.rs', ".map(|i| (self.x_min() + (i as f64) * step_size).min(self.x_max()))", ".map(|i| self.x_min() + (i as f64) * step_size)", 'resampled_n:contract')
 M('C14', 'create-from-vertex-by-position', 'src/geom3/mesh/filtering.rs', "            .map(|i| self.vertices()[*i as usize])", "            .map(|i| self.vertices()[(*i as usize).min(self.vertices().len() - 1)])", 'create_from_indices:vertex-copy')
+# ---------------------------------------------------------------- seeding round 4: own variants of the new obligations
+M('C13', 'section-epsilon-large', 'src/geom3/mesh/queries.rs', ".intersection_with_local_plane(&plane.normal, plane.d, 1.0e-6);", ".intersection_with_local_plane(&plane.normal, plane.d, 1.0e-3);", 'section:on-plane-epsilon')
+M('C14', 'vertex-check-angle-only', 'src/geom3/mesh/filtering.rs', "            if self.planar_tol.is_none() && self.angle_tol.is_none() {", "            if self.planar_tol.is_none() || self.angle_tol.is_none() {", 'vertex_check:no-further-test')
+M('C15', 'poisson-mask-skips-self', 'src/common/poisson_disk.rs', "        for w in within {\n            mask[w.0] = false;\n        }", "        for w in within {\n            if w.0 != m {\n                mask[w.0] = false;\n            }\n        }", 'mask-every-neighbour')
+M('C20', 'append-only-self-uv-checked', 'src/geom3/mesh.rs', "        if self.uv.is_some() || other.uv.is_some() {", "        if self.uv.is_some() {", 'shape/uv:in-step')
+M('C20', 'interior-barycentric-abs-det', 'src/geom3/mesh/uv_mapping.rs', "    if det == 0.0 {\n        return None;\n    }", "    if det.abs() < 1.0e-3 {\n        return None;\n    }", 'interior_barycentric:degenerate-only')
+M('C09', 'fit-circle-loose-ftol', 'src/geom2/circle2.rs', "    let (result, report) = LevenbergMarquardt::new().minimize(problem);", "    let (result, report) = LevenbergMarquardt::new().with_ftol(1.0e-4).minimize(problem);", 'default-tolerances')
+M('C11', 'arc-set-angle-in-place', 'src/geom2/circle2.rs', "    pub fn length(&self) -> f64 {\n        self.circle.ball.radius * self.angle.abs()\n    }", "    pub fn length(&self) -> f64 {\n        self.circle.ball.radius * self.angle.abs()\n    }\n\n    pub fn set_sweep(&mut self, angle: f64) {\n        self.angle = angle;\n    }", 'immutable')
+M('C10', 'open-gap-max-instead-of-min', 'src/airfoil/edges.rs', "                .min(end_sp.scalar_projection(&end_cap.b));", "                .max(end_sp.scalar_projection(&end_cap.b));", 'find_edge:step')
